@@ -217,7 +217,10 @@ func (b *MirroredBuffer) Commit(n int) int {
 		n = free
 	}
 	b.used += n
-	b.tail = (b.tail + n) & b.sizeMask
+	// The size is a multiple of the page size but not necessarily a power of two, so masking is not enough to wrap.
+	if b.tail += n; b.tail >= b.size {
+		b.tail -= b.size
+	}
 	return n
 }
 
@@ -229,7 +232,9 @@ func (b *MirroredBuffer) Consume(n int) int {
 		return 0
 	}
 	b.used -= n
-	b.head = (b.head + n) & b.sizeMask
+	if b.head += n; b.head >= b.size {
+		b.head -= b.size
+	}
 	return n
 }
 
